@@ -450,17 +450,22 @@ Loop:
 }
 
 func (s *Scanner) comment(left, right string) {
-	i := strings.Index(s.input[s.pos:], right)
+	i, n := strings.Index(s.input[s.pos:], right), len(right)
+	switch {
+	// A line comment may be
+	// ended by the input.
+	case i == -1 && right == "\n":
+		i, n = len(s.input)-s.pos, 0
 	// Not a comment.
-	if i == -1 {
+	case i == -1:
 		return
 	}
 	// If the comment reside inside a statement, collect it.
 	if s.pos != len(left) {
-		s.addPos(i + len(right))
+		s.addPos(i + n)
 		return
 	}
-	s.addPos(i + len(right))
+	s.addPos(i + n)
 	// If we did not scan any statement characters, it
 	// can be skipped and stored in the comments group.
 	s.comments = append(s.comments, s.input[:s.pos])
